@@ -493,9 +493,11 @@ partial def loop (h : IO.FS.Stream) (out : IO.FS.Stream) (tbl : DbTable) : IO Un
   match dbLine (trimmed.splitOn " ") with
   | some e =>
     out.putStrLn "DB"
+    out.flush
     loop h out (e :: tbl)
   | none =>
     out.putStrLn (dispatch tbl line)
+    out.flush
     loop h out tbl
 
 end Driver
